@@ -1,6 +1,6 @@
 """C14 — algebraic laws of equality, ordering and logic."""
 from . import common as C
-from . import suite, values
+from . import suite, values, execsuite, srcvalues
 from .proof import prove
 
 
@@ -65,7 +65,47 @@ def run(chk):
                                        "a_sexp": a, "b_sexp": b,
                                        "equals_ab": e_ab, "equals_ba": e_ba, "compare_ab": C.decode_hex_fields(c_ab),
                                        "compare_ba": C.decode_hex_fields(c_ba)})
-    chk.samples = [C.decode_hex_fields(l) for l in lines[:3] + lines[len(lines) // 2: len(lines) // 2 + 3]]
+    # (3) the same laws at the program level: every operator spelling goes through the interpreter
+    vals = srcvalues.by_name(srcvalues.QUICK if chk.tier == "quick" else None)
+    cases, index = [], {}
+    for (na, sa, ea, ka) in vals:
+        for (nb, sb, eb, kb) in vals:
+            pre = sa + [x for x in sb if x not in sa]
+            for key, form in (("eq", f"{ea} is {eb}"), ("ne", f"{ea} isnt {eb}"), ("ne2", f"{ea} is not {eb}"), ("lt", f"{ea} is less than {eb}"),
+                              ("gt", f"{ea} is greater than {eb}"), ("le", f"{ea} is as low as {eb}"), ("ge", f"{ea} is as high as {eb}"),
+                              ("le_and_ge", f"{ea} <= {eb} and {ea} >= {eb}"), ("nor", f"{ea} nor {eb}"), ("not_or", f"not {ea} or {eb}")):
+                index[(na, nb, key)] = len(cases)
+                cases.append({"src": "\n".join(pre + [f"say {form}"]) + "\n", "meta": {"a": na, "b": nb, "form": key}})
+    recs = execsuite.run(chk, cases, "laws", suite_name="EXEC-laws")
+    nbad = 0
+    for prof in ("debug", "release"):
+        def res(na, nb, key):
+            st, out = execsuite.split_out(recs[index[(na, nb, key)]]["impl"].get(prof, ""))
+            if st.startswith("err"):
+                return "error"
+            return bytes.fromhex(out).decode("utf-8", "replace").strip() if out is not None else st
+        for (na, _, _, _) in vals:
+            for (nb, _, _, _) in vals:
+                problems = []
+                if res(na, nb, "eq") != res(nb, na, "eq"):
+                    problems.append("`a is b` differs from `b is a`")
+                neg = {"true": "false", "false": "true", "error": "error"}
+                if res(na, nb, "ne") != neg.get(res(na, nb, "eq")) or res(na, nb, "ne2") != neg.get(res(na, nb, "eq")):
+                    problems.append("`isnt` / `is not` is not the negation of `is`")
+                if res(na, nb, "lt") != res(nb, na, "gt"):
+                    problems.append("`a < b` differs from `b > a`")
+                if res(na, nb, "le") != res(nb, na, "ge"):
+                    problems.append("`a <= b` differs from `b >= a`")
+                if res(na, nb, "le") != "error" and res(na, nb, "le_and_ge") != res(na, nb, "eq"):
+                    problems.append("`a <= b and a >= b` differs from `a is b`")
+                if problems and nbad < 4:
+                    nbad += 1
+                    chk.add_violation("law violated by the interpreter: " + "; ".join(problems),
+                                      {"oracle": "laws-on-programs", "profile": prof, "a": na, "b": nb,
+                                       "programs": {k: cases[index[(na, nb, k)]]["src"] for k in ("eq", "le", "ge", "le_and_ge")},
+                                       "results": {k: res(na, nb, k) for k in ("eq", "ne", "ne2", "lt", "gt", "le", "ge", "le_and_ge")},
+                                       "swapped": {k: res(nb, na, k) for k in ("eq", "lt", "gt", "le", "ge")}})
+    chk.samples = [C.decode_hex_fields(l) for l in lines[:3] + lines[len(lines) // 2: len(lines) // 2 + 3]] + [cases[5]["src"]]
     if not proved:
         chk.add_violation("proof obligations of C14 no longer check", chk.proof_failure,
                           no_input=not any(not ni for _, _, ni in chk.violations))
